@@ -346,6 +346,42 @@ func (c *Check) rangeBoundUnits() {
 				if src == nil {
 					continue
 				}
+				// number text and unit handed in as parameters: the pairing is decided at each call
+				if ps, okS := src.(*ssa.Parameter); okS {
+					if pu, okU := cl.Call.Args[1].(*ssa.Parameter); okU && ps.Parent() == g && pu.Parent() == g {
+						si, ui := -1, -1
+						for k, q := range g.Params {
+							if q == ps {
+								si = k
+							}
+							if q == pu {
+								ui = k
+							}
+						}
+						sites, okC := allCallSites(p, g)
+						if okC && si >= 0 && ui >= 0 {
+							for _, cs := range sites {
+								args := cs.Common().Args
+								if si >= len(args) || ui >= len(args) {
+									continue
+								}
+								gn, _, ok1 := group(args[si])
+								gu, _, ok2 := group(args[ui])
+								if !ok1 || !ok2 {
+									continue
+								}
+								n++
+								key := fmt.Sprintf("bound-unit#%d", n)
+								if sameGroup(gn, gu) {
+									c.ok("C06-R9", key, p.relFile(cs.Pos()), "a range bound is scaled from its own unit", "the number text and the unit handed to "+fnName(g)+" are taken from the same submatch group")
+								} else {
+									c.bad("C06-R9", key, p.relFile(cs.Pos()), "a bound of a numeric tag range is scaled with the unit written next to the other bound ("+describeValue(args[si])+" with "+describeValue(args[ui])+"): 512kb:2mb is read as 512kb:2kb")
+								}
+							}
+						}
+						continue
+					}
+				}
 				gn, _, ok1 := group(src)
 				gu, _, ok2 := group(cl.Call.Args[1])
 				if !ok1 || !ok2 {
